@@ -423,7 +423,11 @@ def raw_node(rng, depth):
         return ('leaf', ('NS', rng.choice(['', 'svg']), 'http://www.w3.org/2000/svg'))
     if r < 0.98:
         return ('leaf', ('ENS', rng.choice(['', 'svg'])))
-    # no START_CDATA: known finding C06-cdata-html (the HTML serializer writes such text unescaped)
+    # balanced CDATA sections are back since C06-cdata-html was repaired in genshi/output.py (fix
+    # c5a55cd); an unclosed START_CDATA stays out: the xhtml serializer would open a section that
+    # swallows the rest of the document, which no reader can judge
+    if rng.random() < 0.5:
+        return ('seq', [('SC',), ('T', text_payload(rng), False), ('EC',)])
     return ('leaf', rng.choice([('EC',), ('XD', '1.0', None, -1)]))
 
 
@@ -434,6 +438,8 @@ def flatten(node, out):
         for k in kids:
             flatten(k, out)
         out.append(('E', tag))
+    elif node[0] == 'seq':
+        out.extend(node[1])
     else:
         out.append(node[1])
     return out
